@@ -54,7 +54,7 @@ func c19insert(table string, names []string, esc string, incr bool) string {
 
 func c19frame(typs []string, n int) ([]string, []vxCol, []uint32, QFrame) {
 	P := n + 1
-	all := []string{"a", "b", "c"}
+	all := []string{"a", "b", "c", "d", "e"}
 	names := all[:len(typs)]
 	cols := make([]vxCol, len(typs))
 	for k, t := range typs {
